@@ -140,7 +140,8 @@ def alignment_file(eng, read_factory, extra_methods=None):
     methods = {
         '__enter__': lambda eng_, obj: obj,
         '__exit__': lambda eng_, obj, *a: None,
-        'fetch': lambda eng_, obj, *a, **k: ObjSeq(lambda e, nm: read_factory(e, nm, a, k), 'fetch'),
+        'fetch': lambda eng_, obj, *a, **k: (eng_.ghost.__setitem__('fetch_args', (a, k)),
+                                             ObjSeq(lambda e, nm: read_factory(e, nm, a, k), 'fetch'))[1],
         'close': lambda eng_, obj: None,
     }
     methods.update(extra_methods or {})
